@@ -75,6 +75,7 @@ type Profile struct {
 	NodeNamedField float64 // probability that a single-object reference field of an object type is called `node` (edge.node style)
 	PartialImpl    float64 // probability that one service declares a shared value type without one of its `implements` clauses (merge-only universes)
 	ScalarArgs     bool    // fields may take an argument of the custom scalar type (meta: Stamp)
+	ValueWithID    float64 // probability that a value (non-Node) type carries an `id: ID!` field
 	SpreadEnum     bool    // services declare different subsets of an enum's values (merge-only universes)
 }
 
@@ -171,7 +172,12 @@ func NewUniverse(r *rand.Rand, p Profile) *Universe {
 	}
 	for i := 0; i < nv && i < len(valueNames); i++ {
 		vals = append(vals, valueNames[i])
-		add(&TypeDef{Name: valueNames[i], Kind: KValue})
+		vt := &TypeDef{Name: valueNames[i], Kind: KValue}
+		if p.ValueWithID > 0 && r.Float64() < p.ValueWithID {
+			// a plain (non-Node) type that happens to have an id field
+			vt.Fields = append(vt.Fields, &Field{Name: "id", Type: "ID!", Owner: -1})
+		}
+		add(vt)
 	}
 	// interfaces over entities (with id) or over value types (without)
 	var ifaces []string
